@@ -42,14 +42,14 @@ def run(ctx):
         cases = [(c['prog'], c['inputs'])]
         pick = {0: [c['variant']] if c.get('variant') else variants}
     else:
-        n, per = (6, 6) if ctx.quick else (70, 8)
+        n, per = (6, 6) if ctx.quick else (40, 6)
         cases = gen_cases(ctx, n)
         pick = {}
         for i, (prog, _) in enumerate(cases):
             pick[i] = CORPUS_PICK.get(prog['features'][0]) or [main[(i * per + j) % len(main)] for j in range(per)]
     results, fails, legal = S.behaviour_check_multi(ctx, 'tmp', cases, variants, S.transform_c38, pick=pick)
     S.report_failures_multi(ctx, 'C38', cases, results, fails, S.transform_c38, shrink=not ctx.replay,
-                            budget=3 if ctx.quick else 24, shrink_all=not ctx.quick)
+                            budget=3 if ctx.quick else 10, shrink_all=not ctx.quick)
     ctx.cover['programs_with_legal_inputs'] = len(legal)
     ctx.cover['variants_exercised'] = sorted({v for r in results for v in r['new']})
     ctx.cover['variant_runs_ok'] = {v: sum(1 for r in results if r['new'].get(v, ('',))[0] == 'ok') for v in variants}
